@@ -11,7 +11,11 @@ EXPLANATION = (
     "rule between siblings); (R07.3) the height-scaled noise of the box filter is computed from the incoming state "
     "(never from the already propagated mean); (R07.4) constructors store (position, velocity) weights in that order, "
     "the vector filter forwards them in order, Default uses 1/20 and 1/160, and the std helpers multiply by the "
-    "matching weight. Equality with the textbook recurrence, SPD-ness and stationarity are numeric and NOT decided.")
+    "matching weight; (R07.6) the per-observation step shared by all trackers (make_prediction) runs predict and update "
+    "exactly once on every path, update takes the predicted state and the observation, predict starts from the stored "
+    "state or from initiate(observation), and the state stored and the box reported are the result of that update; "
+    "(R07.7) the state -> box conversion reads mean[0,1,3,4] in place and drops the angle exactly when mean[2] == 0. "
+    "Equality with the textbook recurrence, SPD-ness and stationarity are numeric and NOT decided.")
 NOT_DECIDED = ["equality with the textbook Kalman recurrence for all trajectories (f32 linear algebra)",
                "symmetric positive-definiteness of the covariance", "stationary-object prediction",
                "squared-Mahalanobis value of distance()"]
@@ -253,6 +257,168 @@ def weights_rule(ctx, R):
     return n
 
 
+def alternatives(e):
+    """leaf alternatives of an expression through phi nodes and value-preserving wrappers"""
+    e = e.strip()
+    if e.kind == 'phi':
+        out = []
+        for a in e.args:
+            out += alternatives(a)
+        return out
+    return [e]
+
+
+def sequence_rule(ctx, R):
+    """R07.6 — the per-observation step of every tracker: (initiate when there is no state) -> predict -> update,
+    the state stored and the box reported are both the result of that update."""
+    from lib import count_on_paths
+    n = 0
+    T = 'trackers::kalman_prediction::TrackAttributesKalmanPrediction'
+    b = ctx.anchor(R, T + '::make_prediction')
+    if b is None:
+        return 0
+    eb = ExprBuilder(b)
+    rets = b.returns()
+    for m in ('predict', 'update'):
+        cs = b.find_calls(BOX + '::' + m)
+        r = count_on_paths(b, 0, rets, [c.bb for c in cs])
+        n += 1
+        ctx.check(r == (1, 1), R, b, 'make_prediction:%s-exactly-once-on-every-path' % m, str(r),
+                  'make_prediction runs Universal2DBoxKalmanFilter::%s %s times (min, max) on the paths to its return: '
+                  'every observation must be preceded by exactly one %s step' % (m, r, m))
+    ups = b.find_calls(BOX + '::update')
+    if len(ups) == 1:
+        st = alternatives(eb.arg(ups[0], 1))
+        n += 1
+        okp = bool(st) and all(x.kind == 'call' and x.name == BOX + '::predict' for x in st)
+        ctx.check(okp, R, b, 'make_prediction:update-takes-the-predicted-state', repr(st)[:200],
+                  'the state handed to update() is %s: on some path it has not gone through predict() (the '
+                  'covariance misses one propagation)' % repr(st)[:300], ups[0].ln)
+        meas = eb.arg(ups[0], 2).strip()
+        n += 1
+        ctx.check(meas.kind == 'place' and meas.root == ('param', 2) and not meas.fields, R, b,
+                  'make_prediction:update-takes-the-observation', repr(meas),
+                  'update() is not given the observed box (%r)' % meas, ups[0].ln)
+        for x in st:
+            if x.kind == 'call' and x.name == BOX + '::predict' and len(x.args) > 1:
+                src = alternatives(x.args[1])
+                n += 1
+                oks = bool(src) and all(
+                    (y.kind == 'call' and y.name == BOX + '::initiate') or
+                    (y.kind == 'call' and y.name.endswith('::get_state') and 'Some' in ''.join(y.proj)) or
+                    (y.kind == 'place' and False) for y in src)
+                ctx.check(oks, R, b, 'make_prediction:predict-from-stored-or-initiated-state', repr(src)[:200],
+                          'predict() starts from %s (expected the stored state, or initiate(observation) when there '
+                          'is none)' % repr(src)[:300])
+                for y in src:
+                    if y.kind == 'call' and y.name == BOX + '::initiate':
+                        a = y.args[1].strip() if len(y.args) > 1 else None
+                        n += 1
+                        ctx.check(a is not None and a.kind == 'place' and a.root == ('param', 2), R, b,
+                                  'make_prediction:initiate-from-the-observation', repr(a),
+                                  'initiate() is not given the observed box')
+    sets = b.find_calls(T + '::set_state')
+    n += 1
+    oks = len(sets) == 1 and all(x.kind == 'call' and x.name == BOX + '::update'
+                                 for x in alternatives(eb.arg(sets[0], 1)))
+    r = count_on_paths(b, 0, rets, [c.bb for c in sets]) if sets else None
+    ctx.check(oks and r == (1, 1), R, b, 'make_prediction:stores-the-updated-state', str(r),
+              'the state stored back is not the result of update() on every path (%s)' % (
+                  repr(eb.arg(sets[0], 1))[:200] if sets else 'no set_state'))
+    res = eb.place(0, ())
+    n += 1
+    okr = any(c.name == BOX + '::update' for c in res.calls('update')) and not any(
+        x.kind == 'call' and x.name == BOX + '::predict' for x in alternatives(
+            (res.calls('try_from') or [res])[0].args[0] if (res.calls('try_from')) else res))
+    ctx.check(okr, R, b, 'make_prediction:reports-the-updated-mean', repr(res)[:200],
+              'the box reported by make_prediction is not converted from the updated state: %s' % repr(res)[:300])
+    # every tracker calls make_prediction exactly once per observation update
+    return n
+
+
+def angle_option_rule(ctx, R):
+    """R07.7 — state -> box: the angle is absent exactly when the angle component equals 0 (the inverse of
+    `angle.unwrap_or(0.0)` in box -> state); a sign test would report rotated boxes as axis aligned."""
+    n = 0
+    bs = [b for b in ctx.F.get('utils::kalman::try_from') if b.d.get('impl_self', '').endswith('Universal2DBox')]
+    if len(bs) != 1:
+        ctx.fail(R, 'utils::kalman::try_from', 'ANCHOR-MISSING:TryFrom<KalmanState> for Universal2DBox',
+                 'conversion from the filter state to a box not found')
+        return 0
+    b = bs[0]
+    ctx.read(b)
+    eb = ExprBuilder(b)
+    from lib import orient
+    cs = b.find_calls('utils::bbox::Universal2DBox::new')
+    if len(cs) != 1:
+        ctx.note(R, 'TryFrom<KalmanState> for Universal2DBox no longer builds the box through Universal2DBox::new; '
+                 'angle clause not armed on this shape')
+        ctx.fail(R, b, 'ANCHOR-MISSING:new', 'no single Universal2DBox::new call in the state->box conversion')
+        return 0
+    c = cs[0]
+    def mean_idx(e):
+        """k when e is mean[k] of the state parameter"""
+        while e.kind == 'call' and e.name.rsplit('::', 1)[-1] in ('clone', 'deref', 'to_owned') and e.args:
+            e = e.args[0]
+        if e.kind == 'cast' and e.args:
+            return mean_idx(e.args[0])
+        if e.kind == 'call' and e.name.rsplit('::', 1)[-1] in ('index', 'get_unchecked') and len(e.args) == 2 and \
+                e.args[0].kind == 'place' and e.args[0].root == ('param', 1) and e.args[0].fields[-1:] == ('mean',) \
+                and e.args[1].kind == 'const':
+            try:
+                return int(e.args[1].const_value())
+            except (TypeError, ValueError):
+                return None
+        return None
+    for i in (0, 1, 3, 4):
+        a = eb.arg(c, i)
+        n += 1
+        ctx.check(mean_idx(a) == i, R, b, 'state->box:component[%d]' % i, repr(a),
+                  'argument #%d of Universal2DBox::new is %r (expected mean[%d])' % (i + 1, a, i), c.ln)
+    # the angle operand: local holding the Option
+    op = c.args[2]
+    loc = op.get('pl', {}).get('l') if isinstance(op, dict) else None
+    rows = []
+    if loc is not None:
+        for d in b.defs().get(loc, []):
+            if d[0] != 'assign' or d[1] not in b.live_blocks():
+                continue
+            rv = d[3]['rv']
+            if rv['k'] != 'agg':
+                continue
+            variant = 'Some' if rv.get('ops') else 'None'
+            conds = path_conditions(b, d[1])
+            zero = None
+            for cnd in conds:
+                cm = cnd.cmp()
+                if not cm:
+                    continue
+                o = orient(cm, lambda e: mean_idx(e) == 2)
+                if o and o[2].kind == 'const' and o[2].const_value() in ('0.0', '0', '-0.0'):
+                    zero = o[0]
+            val = eb._rvalue(rv, (), 0, (d[1], d[2]))
+            rows.append((variant, zero, val))
+    n += 1
+    ok = len(rows) == 2 and {r[0] for r in rows} == {'None', 'Some'} and all(
+        (r[0] == 'None' and r[1] == 'Eq') or (r[0] == 'Some' and r[1] == 'Ne') for r in rows)
+    if not rows:
+        # other accepted form: Some(x).filter(|a| *a != 0.0) etc. is not recognised: fail closed with a diagnosable id
+        ctx.check(False, R, b, 'state->box:angle-absent-iff-zero', '',
+                  'the angle argument of the state->box conversion is not built as `None` under angle == 0 / `Some` '
+                  'otherwise (shape not recognised)')
+        return n
+    ctx.check(ok, R, b, 'state->box:angle-absent-iff-zero', str([(r[0], r[1]) for r in rows]),
+              'the state->box conversion yields %s: the angle must be None exactly when the angle component equals 0 '
+              '(negative or small angles would be dropped otherwise)' % [(r[0], 'angle %s 0' % r[1]) for r in rows])
+    for r in rows:
+        if r[0] == 'Some':
+            n += 1
+            ctx.check(r[2].kind == 'agg' and len(r[2].args) == 1 and mean_idx(r[2].args[0]) == 2, R, b,
+                      'state->box:angle-component', repr(r[2]),
+                      'Some(angle) is built from %r (expected mean[2])' % r[2])
+    return n
+
+
 def run(ctx):
     _wiring(ctx)
     ctx.rule('R07.1', 'direct and inverted cost gate on CHI2INV95[dim-1] with the same comparison; value table')
@@ -263,6 +429,10 @@ def run(ctx):
     ctx.floor('R07.3', noise_source_rule(ctx, 'R07.3'), 5)
     ctx.rule('R07.4', 'weight wiring: constructors, std helpers, defaults, vector filter')
     ctx.floor('R07.4', weights_rule(ctx, 'R07.4'), 9)
+    ctx.rule('R07.6', 'make_prediction: (initiate) -> predict -> update exactly once each; stored and reported state = update result')
+    ctx.floor('R07.6', sequence_rule(ctx, 'R07.6'), 8)
+    ctx.rule('R07.7', 'state -> box conversion: components in place, angle absent exactly when it equals 0')
+    ctx.floor('R07.7', angle_option_rule(ctx, 'R07.7'), 6)
 
 
 def _wiring(ctx):
